@@ -174,7 +174,8 @@ func (c *Real64) POW(a, k *Real64) *Real64 {
 func (c *Real64) SQRT(a *Real64) *Real64 {
   x := a.GetFloat64()
   y := 0.5
-  v0 := math.Pow(x, y)
+  // math.Pow(-Inf, 0.5) is +Inf
+  v0 := math.Sqrt(x)
   f1 := func() (float64) {
     return math.Pow(x, y-1)*y
   }
